@@ -29,6 +29,10 @@ var (
 	ClockReads     int
 	reseeders      []func(int64)
 	permuteCounter uint64
+	// Quiet switches the reach counters off: under the scheduler engine map ranges are executed by
+	// worker goroutines that the race detector must see as unordered, and a counter shared by them
+	// would itself be reported as a race.
+	Quiet bool
 )
 
 // RegisterReseed lets a package with a time-seeded package-level PRNG hand over its Seed method.
@@ -81,18 +85,22 @@ func less(a, b reflect.Value) bool {
 }
 
 func order[K comparable](keys []K) {
-	if SiteSizes == nil {
-		SiteSizes = map[string]int{}
+	if !Quiet {
+		if SiteSizes == nil {
+			SiteSizes = map[string]int{}
+		}
+		RangesTotal++
 	}
-	RangesTotal++
 	if len(keys) < 2 {
 		return
 	}
-	RangesMulti++
-	var zero K
-	tn := fmt.Sprintf("%T", zero)
-	if len(keys) > SiteSizes[tn] {
-		SiteSizes[tn] = len(keys)
+	if !Quiet {
+		RangesMulti++
+		var zero K
+		tn := fmt.Sprintf("%T", zero)
+		if len(keys) > SiteSizes[tn] {
+			SiteSizes[tn] = len(keys)
+		}
 	}
 	sort.SliceStable(keys, func(i, j int) bool { return less(reflect.ValueOf(keys[i]), reflect.ValueOf(keys[j])) })
 	switch policy {
@@ -101,6 +109,9 @@ func order[K comparable](keys []K) {
 			keys[i], keys[j] = keys[j], keys[i]
 		}
 	case Permuted:
+		if Quiet {
+			panic("simctl: the Permuted policy keeps a shared counter and is not available in Quiet mode")
+		}
 		permuteCounter++
 		s := mix(seed, permuteCounter)
 		for i := len(keys) - 1; i > 0; i-- {
@@ -207,6 +218,9 @@ func RunPending() {
 			idx[i], idx[j] = idx[j], idx[i]
 		}
 	case Permuted:
+		if Quiet {
+			panic("simctl: the Permuted policy keeps a shared counter and is not available in Quiet mode")
+		}
 		permuteCounter++
 		s := mix(seed, permuteCounter)
 		for i := len(idx) - 1; i > 0; i-- {
